@@ -254,6 +254,13 @@ def _():
         try: LCDDocFilterConfig.parse({"safe_area": v})
         except Exception as e: return f"safe_area={v} rejected"
 
+# witnesses contributed per property live in harness/witnesses_cNN.py (same decorator, imported here)
+import glob as _glob, importlib as _importlib, os as _os
+sys.path.insert(0, _os.path.dirname(_os.path.abspath(__file__)))
+for _f in sorted(_glob.glob(_os.path.join(_os.path.dirname(_os.path.abspath(__file__)), "witnesses_c*.py"))):
+    _importlib.import_module(_os.path.basename(_f)[:-3])
+
+
 def run(props=None, quiet=False):
     logging.disable(logging.CRITICAL)
     res = {}
